@@ -3,7 +3,7 @@
    specification (headers, versions, streams) in Proofs/XfrSpec.v. *)
 From DV Require Import Base.Prelude Model.XfrM Proofs.XfrSpec.
 From DV Require Proofs.XfrZone Proofs.XfrDiff.
-From DV Require Proofs.XfrSafety Proofs.XfrBasic Proofs.XfrIxfr Proofs.XfrAxfr Proofs.XfrFault Proofs.XfrOrder.
+From DV Require Proofs.XfrSafety Proofs.XfrBasic Proofs.XfrIxfr Proofs.XfrAxfr Proofs.XfrFault Proofs.XfrOrder Proofs.XfrRefresh.
 From Coq Require Import Sorting.Permutation.
 
 (* Whatever is received (any messages, any records, any chunking, any fault), if the transfer ends
@@ -217,6 +217,47 @@ Theorem done_has_announced_soa : forall z rdt ser udp ws z' n,
                                  /\ announced r0 z'.
 Proof. exact XfrFault.done_has_announced_soa. Qed.
 Print Assumptions done_has_announced_soa.
+
+(* ---- a secondary refreshing its zone (make_query -> extract_serial_from_query -> the server's
+        answer for that serial -> transfer) ---- *)
+
+(* the query carries the zone's current SOA serial; the transfer is based on the serial read back *)
+Theorem refresh_query_serial : forall z table qt s s2 c z',
+  refresh1 z table = Ok (qt, s, s2, c, z') ->
+  s = zone_serial z /\ s2 = s /\ qt = (match zone_serial z with Some _ => tIXFR | None => tAXFR end).
+Proof. exact XfrRefresh.refresh_query_serial. Qed.
+Print Assumptions refresh_query_serial.
+
+(* incremental refresh: afterwards the zone is the server's newest version and the next query will
+   carry its serial (so refreshes compose) *)
+Theorem refresh_converges : forall v0 chain z table recs ws,
+  chain_ok v0 chain -> zeq z (zone_of v0) ->
+  find_row table (Some (v_serial v0)) = Some ws ->
+  ixfr_response v0 chain recs -> chunking tIXFR recs ws ->
+  exists z', refresh1 z table = Ok (tIXFR, Some (v_serial v0), Some (v_serial v0), 0, z')
+             /\ zeq z' (zone_of (last chain v0))
+             /\ zone_serial z' = Some (v_serial (last chain v0)).
+Proof. exact XfrRefresh.refresh_converges. Qed.
+Print Assumptions refresh_converges.
+
+Theorem refresh_full : forall v z table recs ws,
+  version_wf v -> zone_serial z = None ->
+  find_row table None = Some ws ->
+  axfr_response v recs -> chunking tAXFR recs ws ->
+  exists z', refresh1 z table = Ok (tAXFR, None, None, 0, z')
+             /\ zeq z' (zone_of v) /\ zone_serial z' = Some (v_serial v).
+Proof. exact XfrRefresh.refresh_full. Qed.
+Print Assumptions refresh_full.
+
+Theorem refresh_axfr_style : forall v z zs table recs ws,
+  version_wf v -> v_rest v <> [] -> zone_serial z = Some zs ->
+  v_serial v <> zs -> serial_lt (v_serial v) zs = false ->
+  find_row table (Some zs) = None -> find_row table None = Some ws ->
+  axfr_response v recs -> chunking tIXFR recs ws ->
+  exists z', refresh1 z table = Ok (tIXFR, Some zs, Some zs, 0, z')
+             /\ zeq z' (zone_of v) /\ zone_serial z' = Some (v_serial v).
+Proof. exact XfrRefresh.refresh_axfr_style. Qed.
+Print Assumptions refresh_axfr_style.
 
 (* non-vacuity: concrete instances of the hypotheses *)
 Example ex_backwards :
